@@ -30,6 +30,10 @@ type LoopScenario struct {
 	OutageMs      int    `json:"outage_ms"`
 	OutageKind    string `json:"outage_kind"`
 	ExecMs        int    `json:"exec_ms,omitempty"`
+	// WatermarkFaultMs > 0: at this moment one durable write of a submission watermark (the persisted
+	// "last submitted header/data height") fails with an I/O error, once.
+	WatermarkFaultMs int    `json:"watermark_fault_ms,omitempty"`
+	WatermarkOf      string `json:"watermark_of,omitempty"` // header | data
 	// Arrivals: transactions entering the mempool (none: an idle chain that produces only empty blocks).
 	Arrivals []Arrival `json:"arrivals,omitempty"`
 }
@@ -61,6 +65,10 @@ func genLoops(t *rapid.T) LoopScenario {
 		sc.BlockMs = 10
 		sc.OutageKind = rapid.SampledFrom([]string{"mempool", "timeout"}).Draw(t, "congestionkind")
 		sc.OutageMs = rapid.SampledFrom([]int{45_000, 90_000}).Draw(t, "congestionlen")
+	}
+	if rapid.IntRange(0, 5).Draw(t, "wmfault") == 0 {
+		sc.WatermarkFaultMs = 1 + rapid.IntRange(0, 12).Draw(t, "wmfaultat")*interval
+		sc.WatermarkOf = rapid.SampledFrom([]string{"header", "data"}).Draw(t, "wmfaultof")
 	}
 	if rapid.IntRange(0, 4).Draw(t, "slowexec") == 0 {
 		sc.ExecMs = rapid.SampledFrom([]int{sc.BlockMs / 2, 2 * sc.BlockMs}).Draw(t, "exec")
@@ -115,6 +123,15 @@ func runLoops(sc LoopScenario, dir string) world.Verdict {
 		spawn(func() { reaper.Start(ctx) })
 		spawn(func() { m.HeaderSubmissionLoop(ctx) })
 		spawn(func() { m.DataSubmissionLoop(ctx) })
+		if sc.WatermarkFaultMs > 0 {
+			spawn(func() {
+				select {
+				case <-ctx.Done():
+				case <-time.After(time.Duration(sc.WatermarkFaultMs) * time.Millisecond):
+					p.Raw.SetErrOnPrefix("/0/m/last-submitted-" + map[bool]string{true: "data", false: "header"}[sc.WatermarkOf == "data"] + "-height")
+				}
+			})
+		}
 		for _, a := range sc.Arrivals {
 			a := a
 			spawn(func() {
@@ -159,6 +176,9 @@ func runLoops(sc LoopScenario, dir string) world.Verdict {
 		}
 		if len(sc.Arrivals) == 0 {
 			labels = append(labels, "idle-chain")
+		}
+		if sc.WatermarkFaultMs > 0 {
+			labels = append(labels, "watermark-write-fault")
 		}
 		if sc.OutageMs >= 45_000 && (sc.OutageKind == "mempool" || sc.OutageKind == "timeout") {
 			labels = append(labels, "congestion-of-thousands-of-refused-attempts")
